@@ -13,6 +13,7 @@ import Driver.WS
 import Driver.Http
 import Driver.Auth
 import Driver.Route
+import Driver.Backoff
 /-!
 # Model driver: one op per input line → one canonical output line.
 `driver <engine> < ops`.  Lines starting with `#` and blank lines are skipped; `case <name>`
@@ -34,6 +35,7 @@ def engines : List (String × Engine) :=
    ("ws", WSEngine.engine),
    ("http", HttpEngine.engine),
    ("gossiph", GossiphEngine.engine),
+   ("backoff", BackoffEngine.engine),
    ("gossip", GossipEngine.engine)]
 
 partial def loop (h : IO.FS.Stream) (out : IO.FS.Stream) (e : Engine) (s : e.σ) : IO Unit := do
